@@ -97,6 +97,19 @@ def gen(rng, i, tier):
             bb = rng.choice([b, b / 2, tot, Fraction(0), b + 1])
             qs_.append([W, pb.qs(bb)])
         case["card_queries"] = qs_
+        if n and rng.random() < 0.4:
+            # history: the same Instance object is queried, changed in place (same number of projects), and
+            # queried again -- the answers must be those of the instance as it is NOW (no stale state)
+            j = rng.randrange(n)
+            newc = pb.qs(rng.choice(pool))
+            kind_m = rng.choice(["swap", "cost", "budget", "swap"])
+            fc, fb = list(costs), pb.qs(b)
+            if kind_m == "budget":
+                fb = pb.qs(rng.choice([tot, Fraction(0), b + 1, min(pb.F(c) for c in costs), b / 2]))
+            else:
+                fc[j] = newc
+            case["mutate"] = {"kind": kind_m, "j": j, "cost": newc, "budget": fb}
+            case["final_costs"], case["final_budget"] = fc, fb
     else:
         qs_ = []
         for _ in range(2):
@@ -109,12 +122,46 @@ def gen(rng, i, tier):
     return case
 
 
+def _pure_queries(case, inst, projs):
+    from pabutools.election.instance import max_budget_allocation_cardinality
+
+    out = {}
+    out["feas"] = [bool(inst.is_feasible([projs[j] for j in W])) for W in case["subsets"]]
+    out["exh"] = [bool(inst.is_exhaustive([projs[j] for j in W])) for W in case["subsets"]]
+    out["exh_av"] = [bool(inst.is_exhaustive([projs[j] for j in W], [projs[j] for j in A]))
+                     for W, A in case["exh_avail"]]
+    out["balloc"] = [pb.ranks(b) for b in inst.budget_allocations()]
+    try:
+        out["trivial"] = bool(inst.is_trivial())
+    except ValueError:
+        out["trivial"] = "raised"
+    out["card"] = [int(max_budget_allocation_cardinality([projs[j] for j in W], pb.num(b)))
+                   for W, b in case["card_queries"]]
+    return out
+
+
 def impl(case):
     from pabutools.election.instance import max_budget_allocation_cardinality, max_budget_allocation_cost
 
     inst, projs = pb.make_instance(case["costs"], case["budget"], case["order"])
     out = {"enum": pb.ranks(list(inst))}
+    if case["kind"] == "pure" and case.get("mutate"):
+        from pabutools.election import Project
+        _ = _pure_queries(case, inst, projs)          # first round of queries on the original instance
+        mu = case["mutate"]
+        if mu["kind"] == "budget":
+            inst.budget_limit = pb.num(mu["budget"])
+        elif mu["kind"] == "cost":
+            projs[mu["j"]].cost = pb.num(mu["cost"])
+        else:
+            inst.discard(projs[mu["j"]])
+            projs[mu["j"]] = Project(pb.pname(mu["j"]), pb.num(mu["cost"]))
+            inst.add(projs[mu["j"]])
+        out["enum"] = pb.ranks(list(inst))
     if case["kind"] == "pure":
+        out.update(_pure_queries(case, inst, projs))
+        return out
+    if False:
         out["feas"] = [bool(inst.is_feasible([projs[j] for j in W])) for W in case["subsets"]]
         out["exh"] = [bool(inst.is_exhaustive([projs[j] for j in W])) for W in case["subsets"]]
         out["exh_av"] = [bool(inst.is_exhaustive([projs[j] for j in W], [projs[j] for j in A]))
@@ -155,7 +202,8 @@ def coq_case(case, o):
         feas, exh, balloc, triv, card = "[]", "[]", "None", "None", "[]"
         cost = lst([pair(natl(W), q(b), q(r)) for (W, b), r in zip(case["cost_queries"], o["cost"])])
     return "(mkCase %s %s %s %s %s %s %s %s %s)" % (
-        core.qlist(case["costs"]), q(case["budget"]), natl(o["enum"]), feas, exh, balloc, triv, card, cost)
+        core.qlist(case.get("final_costs", case["costs"])), q(case.get("final_budget", case["budget"])),
+        natl(o["enum"]), feas, exh, balloc, triv, card, cost)
 
 
 def nontrivial(case, o):
@@ -189,8 +237,8 @@ def stats(cases, obs):
 
 def shrink(case):
     n = len(case["costs"])
-    # drop a project
-    for j in range(n):
+    # drop a project (history cases keep their projects: the mutation refers to an index)
+    for j in (range(n) if not case.get("mutate") else []):
         c = dict(case)
         c["costs"] = case["costs"][:j] + case["costs"][j + 1:]
         ren = lambda W: [x - (x > j) for x in W if x != j]
@@ -206,6 +254,11 @@ def shrink(case):
             c["card_queries"] = [[ren(W), b] for W, b in case["card_queries"]]
         else:
             c["cost_queries"] = [[ren(W), b] for W, b in case["cost_queries"] if ren(W)]
+        yield c
+    if case.get("mutate"):
+        c = dict(case)
+        for k in ("mutate", "final_costs", "final_budget"):
+            c.pop(k, None)
         yield c
     # fewer queries
     for key in ("exh_avail", "card_queries", "cost_queries"):
